@@ -1340,7 +1340,7 @@ class CompilerPassGatherCode(CompilerPass):
 
         num_lines = len(s.splitlines())
         num_registers = len(self.used_registers)
-        num_bytes = len(s) + num_lines - 1
+        num_bytes = len(s) + max(num_lines - 1, 0)
 
         self.data.result = {
             "code": s,
